@@ -60,7 +60,9 @@ type PassPoolJ struct {
 	Reqs     []ReqJ            `json:"reqs"`   // template requirements on zone / capacity-type / instance-type
 	Labels   map[string]string `json:"labels"` // template labels (custom keys)
 	Taints   []string          `json:"taints"` // NoSchedule taints (key only)
-	Types    []TypeJ           `json:"types"`
+	// SoftTaints: PreferNoSchedule taints of the template (key only): a preference, not a constraint
+	SoftTaints []string `json:"soft_taints,omitempty"`
+	Types      []TypeJ  `json:"types"`
 	LimitCPU int               `json:"limit_cpu,omitempty"` // spec.limits.cpu, milli-cores (c19.reserved only; 0 = none)
 }
 
@@ -146,7 +148,11 @@ type PassPodJ struct {
 	CPU  int      `json:"cpu"` // milli-cores
 	Sel  []ReqJ   `json:"sel"` // nodeSelector entries: op In, exactly one value
 	Aff  []ReqJ   `json:"aff"` // one required node-affinity term
-	Tol  []string `json:"tol"` // tolerated taint keys
+	Tol  []string `json:"tol"` // tolerated taint keys (toleration Exists with effect NoSchedule)
+	// TolAll: keys tolerated by a toleration without an effect (matches NoSchedule and PreferNoSchedule taints alike);
+	// TolSoft: keys tolerated for the effect PreferNoSchedule only
+	TolAll  []string `json:"tol_all,omitempty"`
+	TolSoft []string `json:"tol_soft,omitempty"`
 }
 
 type PassIn struct {
@@ -162,6 +168,8 @@ type ClaimJ struct {
 	Pool  string   `json:"pool"`  // NodePool label of the created NodeClaim
 	Pods  []string `json:"pods"`  // pods the scheduler put on it, in the order they were added (first = the pod that opened it)
 	Types []string `json:"types"` // values of the instance-type requirement of the created NodeClaim, sorted
+	// PoolReq: values of the created NodeClaim's own requirement karpenter.sh/nodepool In [...], sorted; null = it has none
+	PoolReq *[]string `json:"pool_req"`
 }
 
 type PassRun struct {
@@ -177,6 +185,10 @@ type PassOut struct {
 }
 
 const teamKey = "example.com/team"
+
+var poolKey = v1.NodePoolLabelKey
+
+var softKeys = []string{"dedicated", "gpu", "spot-ish"}
 
 var teams = []string{"a", "b"}
 
@@ -332,9 +344,130 @@ func genPassZonal(r *rand.Rand, t core.Tier) any {
 	return in
 }
 
+// genPassTargeted — two streams on a uniform catalog (every type offered in every zone, big enough for every pod), so
+// that which pool hosts a pod is decided by the pool's taints / zone requirement / name and not by its instance types:
+//
+//	"prefer": NodePools with PreferNoSchedule taints anywhere in the weight order (often NOT on the lowest-weight pool),
+//	  pods that tolerate them (for every effect / for PreferNoSchedule only) or not, pools and pods pinned to zones so
+//	  that frequently the only pools able to host a pod are soft-tainted ones: the preference must steer the pod to an
+//	  untainted pool while there is one and must never leave it without a node;
+//	"byname": pods that select or exclude NodePools BY NAME (nodeSelector karpenter.sh/nodepool=X, required affinity
+//	  In / NotIn / Exists / DoesNotExist on that key; sometimes a name no pool has), usually not the highest-weight pool.
+func genPassTargeted(r *rand.Rand, t core.Tier, kind string) any {
+	in := PassIn{Stream: kind, Pools: []PassPoolJ{}, Pods: []PassPodJ{}}
+	nCat := 1 + r.IntN(4)
+	var catalog []TypeJ
+	for i := 0; i < nCat; i++ {
+		ty := TypeJ{Name: fmt.Sprintf("t%02d", i), CPU: []int{4000, 8000, 16000}[r.IntN(3)], Pods: []int{1, 3, 110, 110}[r.IntN(4)], Overhead: []int{0, 100}[r.IntN(2)]}
+		for _, z := range zones {
+			ty.Offerings = append(ty.Offerings, OffJ{Zone: z, Ct: cts[r.IntN(2)], Price: pricePool[r.IntN(len(pricePool))], Avail: r.IntN(15) != 0})
+		}
+		catalog = append(catalog, ty)
+	}
+	nPools := []int{1, 2, 2, 2, 3, 3, 3, 4, 4, 5}[r.IntN(10)]
+	used := map[string]bool{}
+	for i := 0; i < nPools; i++ {
+		p := PassPoolJ{Labels: map[string]string{}, Taints: []string{}, Reqs: []ReqJ{}}
+		for {
+			p.Name = []string{"a", "ab", "b", "default", "high", "low", "np-1", "np-2", "z"}[r.IntN(9)]
+			if !used[p.Name] {
+				used[p.Name] = true
+				break
+			}
+		}
+		switch x := r.IntN(10); {
+		case x < 1:
+			p.Weight = nil
+		case x < 4:
+			p.Weight = lo.ToPtr([]int32{10, 50}[r.IntN(2)])
+		default:
+			p.Weight = lo.ToPtr(int32(1 + r.IntN(100)))
+		}
+		genReadiness(r, &p, 12)
+		p.Types = append([]TypeJ{}, catalog...)
+		r.Shuffle(len(p.Types), func(a, b int) { p.Types[a], p.Types[b] = p.Types[b], p.Types[a] })
+		if r.IntN(2) == 0 {
+			p.Reqs = append(p.Reqs, ReqJ{Key: zoneKey, Op: "In", Vals: []string{zones[r.IntN(3)]}})
+		}
+		if r.IntN(6) == 0 {
+			p.Labels[teamKey] = teams[r.IntN(2)]
+		}
+		if r.IntN(8) == 0 {
+			p.Taints = append(p.Taints, []string{"dedicated", "gpu"}[r.IntN(2)])
+		}
+		softP := map[string]int{"prefer": 2, "byname": 6}[kind]
+		if r.IntN(softP) == 0 {
+			p.SoftTaints = append(p.SoftTaints, softKeys[r.IntN(len(softKeys))])
+			if r.IntN(5) == 0 {
+				p.SoftTaints = lo.Uniq(append(p.SoftTaints, softKeys[r.IntN(len(softKeys))]))
+			}
+		}
+		in.Pools = append(in.Pools, p)
+	}
+	if kind == "prefer" && !lo.ContainsBy(in.Pools, func(p PassPoolJ) bool { return len(p.SoftTaints) > 0 }) {
+		i := r.IntN(len(in.Pools))
+		in.Pools[i].SoftTaints = []string{softKeys[r.IntN(len(softKeys))]}
+	}
+	names := lo.Map(in.Pools, func(p PassPoolJ, _ int) string { return p.Name })
+	nPods := 1 + r.IntN(4)
+	for i := 0; i < nPods; i++ {
+		p := PassPodJ{Name: fmt.Sprintf("pod-%02d", i), CPU: []int{100, 500, 1000, 3000}[r.IntN(4)], Sel: []ReqJ{}, Aff: []ReqJ{}, Tol: []string{}}
+		if r.IntN(2) == 0 {
+			p.Sel = append(p.Sel, ReqJ{Key: zoneKey, Op: "In", Vals: []string{zones[r.IntN(3)]}})
+		}
+		if r.IntN(8) == 0 {
+			p.Sel = append(p.Sel, ReqJ{Key: teamKey, Op: "In", Vals: []string{teams[r.IntN(2)]}})
+		}
+		if r.IntN(4) == 0 {
+			p.Tol = append(p.Tol, []string{"dedicated", "gpu"}[r.IntN(2)])
+		}
+		if r.IntN(5) == 0 {
+			p.TolAll = append(p.TolAll, softKeys[r.IntN(len(softKeys))])
+		}
+		if r.IntN(6) == 0 {
+			p.TolSoft = append(p.TolSoft, softKeys[r.IntN(len(softKeys))])
+		}
+		byNameP := map[string]int{"prefer": 8, "byname": 1}[kind]
+		if r.IntN(byNameP) == 0 {
+			pick := func() string {
+				if r.IntN(12) == 0 {
+					return "ghost"
+				}
+				return names[r.IntN(len(names))]
+			}
+			switch x := r.IntN(10); {
+			case x < 4:
+				p.Sel = append(p.Sel, ReqJ{Key: poolKey, Op: "In", Vals: []string{pick()}})
+			case x < 6:
+				p.Aff = append(p.Aff, ReqJ{Key: poolKey, Op: "In", Vals: lo.Uniq([]string{pick(), pick()})})
+			case x < 9:
+				p.Aff = append(p.Aff, ReqJ{Key: poolKey, Op: "NotIn", Vals: lo.Uniq([]string{pick(), pick()})})
+			default:
+				p.Aff = append(p.Aff, ReqJ{Key: poolKey, Op: []string{"Exists", "Exists", "DoesNotExist"}[r.IntN(3)], Vals: []string{}})
+			}
+			if r.IntN(10) == 0 && len(p.Aff) == 0 { // selector and affinity on the name together
+				p.Aff = append(p.Aff, ReqJ{Key: poolKey, Op: []string{"In", "NotIn"}[r.IntN(2)], Vals: []string{pick()}})
+			}
+		}
+		in.Pods = append(in.Pods, p)
+	}
+	in.CPURequests = []int{1000, 1000, 2000, 3000, 8000, 16000, 0}[r.IntN(7)]
+	in.MaxTypes = []int{1, 2, 600, 600}[r.IntN(4)]
+	in.Reps = 2
+	if t == core.Thorough {
+		in.Reps = 4
+	}
+	return in
+}
+
 func genPass(r *rand.Rand, t core.Tier) any {
-	if r.IntN(6) == 0 {
+	switch r.IntN(12) {
+	case 0, 1:
 		return genPassZonal(r, t)
+	case 2, 3:
+		return genPassTargeted(r, t, "prefer")
+	case 4, 5:
+		return genPassTargeted(r, t, "byname")
 	}
 	in := PassIn{Pools: []PassPoolJ{}, Pods: []PassPodJ{}}
 	nPools := []int{1, 2, 2, 3, 3, 4, 4, 5, 5, 5}[r.IntN(10)]
@@ -394,6 +527,9 @@ func genPass(r *rand.Rand, t core.Tier) any {
 		if r.IntN(10) < strict && r.IntN(3) == 0 {
 			p.Taints = append(p.Taints, []string{"dedicated", "gpu"}[r.IntN(2)])
 		}
+		if r.IntN(8) == 0 { // a preference, whatever the strictness of the case
+			p.SoftTaints = append(p.SoftTaints, softKeys[r.IntN(len(softKeys))])
+		}
 		in.Pools = append(in.Pools, p)
 	}
 	nPods := 1 + r.IntN(6)
@@ -407,6 +543,12 @@ func genPass(r *rand.Rand, t core.Tier) any {
 			if r.IntN(3) == 0 {
 				p.Tol = []string{"dedicated", "gpu"}
 			}
+		}
+		if r.IntN(10) == 0 {
+			p.TolAll = append(p.TolAll, softKeys[r.IntN(len(softKeys))])
+		}
+		if r.IntN(12) == 0 {
+			p.TolSoft = append(p.TolSoft, softKeys[r.IntN(len(softKeys))])
 		}
 		if r.IntN(10) >= strict {
 			in.Pods = append(in.Pods, p)
@@ -427,13 +569,19 @@ func genPass(r *rand.Rand, t core.Tier) any {
 		if r.IntN(10) == 0 && len(catalog) > 0 {
 			p.Sel = append(p.Sel, ReqJ{Key: itKey, Op: "In", Vals: []string{catalog[r.IntN(len(catalog))].Name}})
 		}
+		if r.IntN(8) == 0 { // a NodePool selected by name
+			p.Sel = append(p.Sel, ReqJ{Key: poolKey, Op: "In", Vals: []string{in.Pools[r.IntN(len(in.Pools))].Name}})
+		}
 		if r.IntN(3) == 0 {
 			// the required affinity term constrains well-known keys only: a NotIn/Exists/DoesNotExist on a custom key makes
 			// that key "defined" on the in-flight NodeClaim, after which other pods' values for it are adopted as a node
 			// label (C01/C04 territory, not the ordering this property is about)
 			key, dom := zoneKey, zones
-			if r.IntN(3) == 0 {
+			switch r.IntN(6) {
+			case 0, 1:
 				key, dom = ctKey, cts
+			case 2:
+				key, dom = poolKey, lo.Map(in.Pools, func(q PassPoolJ, _ int) string { return q.Name })
 			}
 			op := []string{"In", "In", "NotIn", "NotIn", "NotIn", "Exists", "Exists", "DoesNotExist"}[r.IntN(8)]
 			var vals []string
@@ -525,6 +673,9 @@ func runPassOnce(in *PassIn) (*PassRun, error) {
 		for _, k := range p.Taints {
 			np.Spec.Template.Spec.Taints = append(np.Spec.Template.Spec.Taints, corev1.Taint{Key: k, Value: "true", Effect: corev1.TaintEffectNoSchedule})
 		}
+		for _, k := range p.SoftTaints {
+			np.Spec.Template.Spec.Taints = append(np.Spec.Template.Spec.Taints, corev1.Taint{Key: k, Value: "true", Effect: corev1.TaintEffectPreferNoSchedule})
+		}
 		if p.Static {
 			np.Spec.Replicas = lo.ToPtr(int64(1))
 		}
@@ -587,6 +738,12 @@ func runPassOnce(in *PassIn) (*PassRun, error) {
 		for _, k := range p.Tol {
 			opts.Tolerations = append(opts.Tolerations, corev1.Toleration{Key: k, Operator: corev1.TolerationOpExists, Effect: corev1.TaintEffectNoSchedule})
 		}
+		for _, k := range p.TolAll {
+			opts.Tolerations = append(opts.Tolerations, corev1.Toleration{Key: k, Operator: corev1.TolerationOpExists})
+		}
+		for _, k := range p.TolSoft {
+			opts.Tolerations = append(opts.Tolerations, corev1.Toleration{Key: k, Operator: corev1.TolerationOpExists, Effect: corev1.TaintEffectPreferNoSchedule})
+		}
 		pod := test.UnschedulablePod(opts)
 		pod.UID = types.UID(fmt.Sprintf("pod-uid-%03d", i))
 		pod.CreationTimestamp = metav1.NewTime(epoch.Add(time.Duration(i) * time.Second))
@@ -620,6 +777,11 @@ func runPassOnce(in *PassIn) (*PassRun, error) {
 		for _, r := range nc.Spec.Requirements {
 			if r.Key == itKey {
 				cj.Types = append(cj.Types, r.Values...)
+			}
+			if r.Key == poolKey && r.Operator == corev1.NodeSelectorOpIn {
+				vs := append([]string{}, r.Values...)
+				sort.Strings(vs)
+				cj.PoolReq = &vs
 			}
 		}
 		sort.Strings(cj.Types)
@@ -717,6 +879,35 @@ func passLabels(raw json.RawMessage, impl any) []string {
 	if selfContradictoryCustomKey(in) {
 		l = append(l, "self-contradictory-pod")
 	}
+	// PreferNoSchedule taints: where in the weight order of the usable pools do they sit
+	order := lo.Filter(weightOrderNames(in), func(nm string, _ int) bool {
+		q, _ := lo.Find(in.Pools, func(q PassPoolJ) bool { return q.Name == nm })
+		return q.usable()
+	})
+	poolByName := lo.KeyBy(in.Pools, func(q PassPoolJ) string { return q.Name })
+	for i, nm := range order {
+		if len(poolByName[nm].SoftTaints) > 0 {
+			l = append(l, "soft-tainted-pool")
+			if i < len(order)-1 {
+				l = append(l, "soft-tainted-pool-not-last-in-weight-order")
+				if len(poolByName[order[len(order)-1]].SoftTaints) == 0 {
+					l = append(l, "soft-tainted-pool-above-untainted-last-pool")
+				}
+			}
+		}
+	}
+	podByName := lo.KeyBy(in.Pods, func(q PassPodJ) string { return q.Name })
+	namesPool := func(q PassPodJ) bool {
+		return lo.ContainsBy(q.Sel, func(s ReqJ) bool { return s.Key == poolKey }) || lo.ContainsBy(q.Aff, func(s ReqJ) bool { return s.Key == poolKey })
+	}
+	for _, q := range in.Pods {
+		if namesPool(q) {
+			l = append(l, "pod-constrains-pool-name")
+		}
+		if len(q.TolAll) > 0 || len(q.TolSoft) > 0 {
+			l = append(l, "pod-tolerates-soft-taint-key")
+		}
+	}
 	var out PassOut
 	if b, err := json.Marshal(impl); err == nil && json.Unmarshal(b, &out) == nil {
 		if len(out.Runs) > 1 {
@@ -742,6 +933,24 @@ func passLabels(raw json.RawMessage, impl any) []string {
 				if len(c.Pods) > 1 {
 					l = append(l, "shared-claim")
 					break
+				}
+			}
+			for _, c := range run.Claims {
+				opener, pool := podByName[c.Pods[0]], poolByName[c.Pool]
+				if lo.ContainsBy(pool.SoftTaints, func(k string) bool { return !lo.Contains(opener.TolAll, k) && !lo.Contains(opener.TolSoft, k) }) {
+					l = append(l, "claim-opened-against-taint-preference")
+					if len(order) > 0 && c.Pool != order[len(order)-1] {
+						l = append(l, "claim-opened-against-taint-preference-not-in-last-pool")
+					}
+				}
+				if idx := lo.IndexOf(order, c.Pool); len(pool.SoftTaints) == 0 && idx > 0 && lo.ContainsBy(order[:idx], func(nm string) bool { return len(poolByName[nm].SoftTaints) > 0 }) {
+					l = append(l, "claim-below-soft-tainted-pool")
+				}
+				if namesPool(opener) {
+					l = append(l, "claim-for-pod-constraining-pool-name")
+					if len(order) > 0 && c.Pool != order[0] {
+						l = append(l, "claim-for-pod-constraining-pool-name-not-in-first-pool")
+					}
 				}
 			}
 			for _, c := range run.Claims {
@@ -795,7 +1004,7 @@ func weightOrderNames(in PassIn) []string {
 func selfContradictoryCustomKey(in PassIn) bool {
 	for _, p := range in.Pods {
 		for _, s := range p.Sel {
-			if s.Key == zoneKey || s.Key == ctKey || s.Key == itKey || len(s.Vals) != 1 {
+			if s.Key == zoneKey || s.Key == ctKey || s.Key == itKey || s.Key == poolKey || len(s.Vals) != 1 {
 				continue
 			}
 			for _, a := range p.Aff {
@@ -814,15 +1023,16 @@ func selfContradictoryCustomKey(in PassIn) bool {
 func passOp() *core.Op {
 	return &core.Op{
 		Name: "c19.pass",
-		Doc:  "whole passes of the real Provisioner (Schedule + CreateNodeClaims on the fake client, fake cloud provider) with 1..5 weighted NodePools (ties, nil weights, static/deleting pools, status conditions written through the real ConditionSet API: Ready True / False / Unknown via either dependent, registration health set or not, or no conditions at all; taints, template labels and requirements, per-pool catalogs with price ties), 1..6 pods without inter-pod constraints, 1/2/5/8 template-evaluation workers, MaxInstanceTypes 1/2/3/5/600; one case in six from the stream zonal (uniform catalog priced independently per zone × capacity type, small pods pinned to different zones / capacity types, MaxInstanceTypes 1..4 below the catalog size: several NodeClaims of one pool start from the same option list and must be ordered and cut independently); each pass repeated on fresh worlds; observed: NodePool label, pods and instance-type requirement of every created NodeClaim",
+		Doc:  "whole passes of the real Provisioner (Schedule + CreateNodeClaims on the fake client, fake cloud provider) with 1..5 weighted NodePools (ties, nil weights, static/deleting pools, status conditions written through the real ConditionSet API: Ready True / False / Unknown via either dependent, registration health set or not, or no conditions at all; taints, template labels and requirements, per-pool catalogs with price ties), 1..6 pods without inter-pod constraints, 1/2/5/8 template-evaluation workers, MaxInstanceTypes 1/2/3/5/600; one case in six from the stream zonal (uniform catalog priced independently per zone × capacity type, small pods pinned to different zones / capacity types, MaxInstanceTypes 1..4 below the catalog size: several NodeClaims of one pool start from the same option list and must be ordered and cut independently), one in six from the stream prefer (uniform catalog; PreferNoSchedule taints anywhere in the weight order, mostly not on the lowest-weight pool; pools and pods pinned to zones so that often only soft-tainted pools can host a pod; tolerations per key for every effect / PreferNoSchedule only / none), one in six from the stream byname (pods selecting or excluding NodePools by name through nodeSelector or required affinity In / NotIn / Exists / DoesNotExist on karpenter.sh/nodepool, unknown names); soft taints and name selectors also sprinkled over the general stream; each pass repeated on fresh worlds; observed: NodePool label, pods, instance-type requirement and the own requirement karpenter.sh/nodepool In [...] of every created NodeClaim",
 		N:    n(700, 3000),
 		Gen:  genPass,
 		Impl: implPass,
-		Rule: "non-trivial = at least one NodeClaim was created and (two pools tie in weight, or a claim went to a pool other than the first in weight order, or a claim's instance types were cut to MaxInstanceTypes)",
+		Rule: "non-trivial = at least one NodeClaim was created and (two pools tie in weight, or a claim went to a pool other than the first in weight order, or a claim's instance types were cut to MaxInstanceTypes, or a claim was opened against a PreferNoSchedule taint, or for a pod that constrains the NodePool name)",
 		Nontrivial: func(raw json.RawMessage, impl any) bool {
 			ls := passLabels(raw, impl)
 			has := func(s string) bool { return lo.Contains(ls, s) }
-			return !has("claims=0") && (has("weight-tie") || has("fallback-to-lower-pool") || has("truncated-or-exact"))
+			return !has("claims=0") && (has("weight-tie") || has("fallback-to-lower-pool") || has("truncated-or-exact") ||
+				has("claim-opened-against-taint-preference") || has("claim-for-pod-constraining-pool-name"))
 		},
 		Labels: passLabels,
 		Signature: func(raw json.RawMessage, _ any) string {
